@@ -109,20 +109,6 @@ func selMap(r *vh.Run, k int, mode int) (pages, desel []int) {
 			}
 		}
 		pages = pages[:k]
-		if len(pages) > 0 {
-			// keep the map shaped like "1-u,!...": drop what lies beyond the k-th selected page into the deselected set
-			last := pages[len(pages)-1]
-			nd := desel[:0:0]
-			for _, p := range desel {
-				nd = append(nd, p)
-			}
-			for p := last + 1; p <= u; p++ {
-				if !out[p] {
-					nd = append(nd, p)
-				}
-			}
-			desel = nd
-		}
 	default: // a random subset of 1..u selected, all others deselected (the map api.PagesForPageSelection builds for "1-u,!a,!b-c")
 		u := k + r.Rand.Intn(k+3)
 		perm := r.Rand.Perm(u)
@@ -563,9 +549,47 @@ func guard(f func() error) (err error, pan string) {
 	return f(), ""
 }
 
+// apiSelection builds a page selection for a k page document, several of them with negations
+// ("1-9,!2-4": api.PagesForPageSelection then stores pages 2..4 with value false), and the pages it
+// selects, computed here independently.
+func apiSelection(r *vh.Run, k, variant int) (expr string, expected []int) {
+	out := map[int]bool{}
+	switch {
+	case variant%6 == 1 && k >= 5:
+		expr = fmt.Sprintf("1-%d,!2-4", k)
+		out[2], out[3], out[4] = true, true, true
+	case variant%6 == 2 && k >= 5:
+		expr = fmt.Sprintf("1-%d,!5", k)
+		out[5] = true
+	case variant%6 == 3 && k >= 3:
+		expr = fmt.Sprintf("1-,!1,!%d", k)
+		out[1], out[k] = true, true
+	case variant%6 == 4 && k >= 4:
+		a := 1 + r.Rand.Intn(k-2)
+		b := a + r.Rand.Intn(k-a)
+		x := 1 + r.Rand.Intn(k)
+		expr = fmt.Sprintf("1-%d,!%d-%d,n%d", k, a, b, x)
+		for p := a; p <= b; p++ {
+			out[p] = true
+		}
+		out[x] = true
+	case variant%6 == 5 && k >= 5:
+		expr = "odd"
+		for p := 2; p <= k; p += 2 {
+			out[p] = true
+		}
+	}
+	for p := 1; p <= k; p++ {
+		if !out[p] {
+			expected = append(expected, p)
+		}
+	}
+	return expr, expected
+}
+
 func apiRuns(r *vh.Run) {
 	conf := model.NewDefaultConfiguration()
-	ks := []int{1, 2, 5, 8, 9, 17}
+	ks := []int{1, 2, 5, 9, 12, 17}
 	if r.Thorough() {
 		ks = []int{1, 2, 3, 4, 5, 7, 8, 9, 12, 15, 16, 17, 23, 24, 25, 31, 32, 33, 40, 47, 64, 65, 97}
 	}
@@ -590,25 +614,35 @@ func apiRuns(r *vh.Run) {
 			}
 		}
 	}
-	for _, nc := range ncs {
-		for _, k := range ks {
-			var sel []string
-			pages := selPages(r, k, 0)
-			if k >= 5 && (k+nc.n)%4 == 0 {
-				sel = []string{"odd"}
-				pages = nil
-				for i := 1; i <= k; i += 2 {
-					pages = append(pages, i)
+	for ci, nc := range ncs {
+		for ki, k := range ks {
+			expr, pages := apiSelection(r, k, ci+ki)
+			sel, err := api.ParsePageSelection(expr)
+			if err != nil {
+				r.OracleFail("selection-rejected", map[string]any{"selection": expr}, err.Error())
+				continue
+			}
+			selMapReal, err := api.PagesForPageSelection(k, sel, true, false)
+			if err != nil {
+				r.OracleFail("selection-rejected", map[string]any{"selection": expr}, err.Error())
+				continue
+			}
+			if len(pages) == 0 {
+				continue
+			}
+			for _, v := range selMapReal {
+				if !v {
+					r.Count("class:api-selection-with-false-entries")
+					break
 				}
 			}
 			var nup *model.NUp
-			var err error
 			if nc.label == "nup" {
 				nup, err = api.PDFNUpConfig(nc.n, "", conf)
 			} else {
 				nup, err = api.PDFGridConfig(nc.rows, nc.cols, "", conf)
 			}
-			inp := map[string]any{"op": nc.label, "N": nc.n, "rows": nc.rows, "cols": nc.cols, "pages": k, "selection": sel}
+			inp := map[string]any{"op": nc.label, "N": nc.n, "rows": nc.rows, "cols": nc.cols, "pages": k, "selection": expr}
 			if err != nil {
 				r.OracleFail("nup-config-rejected", inp, err.Error())
 				continue
@@ -642,8 +676,8 @@ func apiRuns(r *vh.Run) {
 					slots = append(slots, 0)
 				}
 			}
-			r.Case("nupslots", []string{vh.Int(int64(nc.n)), vh.Ints(pages)}, vh.Ints(slots))
-			r.Case("nuppages", []string{vh.Int(int64(nc.n)), vh.Ints(pages)}, vh.Int(int64(len(seqs))))
+			r.Case("nupslotsmap", []string{vh.Int(int64(nc.n)), mapArg(selMapReal)}, vh.Ints(slots))
+			r.Case("nuppagesmap", []string{vh.Int(int64(nc.n)), mapArg(selMapReal)}, vh.Int(int64(len(seqs))))
 			// oracle: ceil(k/N) pages, selected pages in order, N per page
 			want := (len(pages) + nc.n - 1) / nc.n
 			var flat []int
@@ -684,13 +718,18 @@ func apiRuns(r *vh.Run) {
 							nup.PageDim = &pd
 							gd := *nup0.Grid
 							nup.Grid = &gd
-							inp := map[string]any{"op": "api.Booklet", "N": n, "desc": desc, "pages": k, "multifolio": folio > 0, "folioSize": folio}
+							expr, want := apiSelection(r, k, k+n+folio+len(desc))
+							sel, err := api.ParsePageSelection(expr)
+							if err != nil || len(want) == 0 {
+								continue
+							}
+							inp := map[string]any{"op": "api.Booklet", "N": n, "desc": desc, "pages": k, "selection": expr, "multifolio": folio > 0, "folioSize": folio}
 							class := "booklet-api-placement"
 							if folio > 0 && n >= 4 {
 								class = classMultiFolio
 							}
 							var out bytes.Buffer
-							err, pan := guard(func() error { return api.Booklet(bytes.NewReader(pdfs[k]), &out, nil, nil, &nup, conf) })
+							err, pan := guard(func() error { return api.Booklet(bytes.NewReader(pdfs[k]), &out, nil, sel, &nup, conf) })
 							r.Count("class:api-booklet")
 							if pan != "" {
 								if class != classMultiFolio {
@@ -715,10 +754,10 @@ func apiRuns(r *vh.Run) {
 							sorted := append([]int(nil), flat...)
 							sort.Ints(sorted)
 							msg := ""
-							if fmt.Sprint(sorted) != fmt.Sprint(selPages(r, k, 0)) {
-								msg = fmt.Sprintf("pages drawn: %v", seqs)
-							} else if len(seqs)%2 != 0 || (len(seqs)*n-k) >= 2*n {
-								msg = fmt.Sprintf("%d output pages of %d cells for %d pages: not whole sheets with padding below one sheet", len(seqs), n, k)
+							if fmt.Sprint(sorted) != fmt.Sprint(want) {
+								msg = fmt.Sprintf("selected %v, pages drawn: %v", want, seqs)
+							} else if len(seqs)%2 != 0 || (len(seqs)*n-len(want)) >= 2*n {
+								msg = fmt.Sprintf("%d output pages of %d cells for %d selected pages: not whole sheets with padding below one sheet", len(seqs), n, len(want))
 							}
 							if msg != "" {
 								r.OracleFail(class, inp, msg)
